@@ -36,7 +36,7 @@ type sres struct {
 type scen struct {
 	name    string
 	pool    Pool
-	pre     []int     // blocks allocated (by hint) before the threads start
+	pre     []int // blocks allocated (by hint) before the threads start
 	threads [][]sop
 }
 
@@ -81,10 +81,10 @@ func doOp(a allocators.Allocator, g geom, o sop) sres {
 }
 
 type histOp struct {
-	thread     int
-	op         sop
-	res        sres
-	call, ret  int64
+	thread    int
+	op        sop
+	res       sres
+	call, ret int64
 }
 
 func (sc scen) scenario() sched.Scenario {
@@ -258,6 +258,35 @@ func linearizable(sc scen, g geom, hist []histOp) bool {
 	return porcupine.CheckOperations(m.ToModel(), ops)
 }
 
+// freeScenarios: concurrent Free calls (C06): of two simultaneous Frees of one outstanding
+// block exactly one may succeed, also with an Allocate in between.
+func freeScenarios(thorough bool) []scen {
+	v6 := Pool{CIDR: "2001:db8:0:10::/63", Page: 64}
+	v4 := Pool{V4: true, Start: "10.0.0.1", End: "10.0.0.2"}
+	var out []scen
+	for _, p := range []Pool{v6, v4} {
+		fam := "v6"
+		if p.V4 {
+			fam = "v4"
+		}
+		out = append(out,
+			scen{name: fam + "/free||free-same-block", pool: p, pre: []int{0}, threads: [][]sop{{{"free", 0}}, {{"free", 0}}}},
+			scen{name: fam + "/free||free||alloc", pool: p, pre: []int{0, 1}, threads: [][]sop{{{"free", 0}}, {{"free", 0}}, {{"alloc", -1}}}},
+		)
+		if thorough {
+			out = append(out, scen{name: fam + "/free;alloc||free;free", pool: p, pre: []int{0}, threads: [][]sop{{{"free", 0}, {"alloc", 0}}, {{"free", 0}, {"free", 1}}}})
+		}
+	}
+	return out
+}
+
+func allScenarios(id string, thorough bool) []scen {
+	if id == "C06" {
+		return freeScenarios(thorough)
+	}
+	return scenarios(thorough)
+}
+
 func scenarios(thorough bool) []scen {
 	v6 := Pool{CIDR: "2001:db8:0:10::/63", Page: 64}
 	v4 := Pool{V4: true, Start: "10.0.0.1", End: "10.0.0.2"}
@@ -306,14 +335,14 @@ func init() {
 		// one worker process per scenario (an exploration owns the process-wide scheduler)
 		var wg sync.WaitGroup
 		sem := make(chan struct{}, 16)
-		for _, sc := range scenarios(!r.Quick()) {
+		for _, sc := range allScenarios(r.ID, !r.Quick()) {
 			sc := sc
 			wg.Add(1)
 			sem <- struct{}{}
 			go func() {
 				defer wg.Done()
 				defer func() { <-sem }()
-				res := reg.Spawn(r, "C04", schedBudget(!r.Quick())+5*time.Minute, "sched", sc.name)
+				res := reg.Spawn(r, r.ID, schedBudget(!r.Quick())+5*time.Minute, "sched", sc.name)
 				if res.Died || res.Hung {
 					panic("E2 worker for " + sc.name + " failed (checker error, not a verdict): " + res.Output)
 				}
@@ -329,10 +358,10 @@ func runOneSched(r *ev.Run, name string) {
 	if !r.Quick() {
 		bound = 3
 	}
-	for _, sc := range scenarios(true) {
+	for _, sc := range allScenarios(r.ID, true) {
 		if sc.name == name {
 			res := sched.Explore(sc.scenario(), bound, schedBudget(!r.Quick()))
-			ReportSched(r, "C04", res, map[string]interface{}{"pool": sc.pool.String(), "threads": fmt.Sprint(sc.threads), "pre": sc.pre})
+			ReportSched(r, r.ID, res, map[string]interface{}{"pool": sc.pool.String(), "threads": fmt.Sprint(sc.threads), "pre": sc.pre})
 		}
 	}
 }
@@ -342,7 +371,11 @@ func ReportSched(r *ev.Run, id string, res sched.Result, descr map[string]interf
 	if res.EngineError != "" {
 		panic("E2 engine error in " + res.Scenario + ": " + res.EngineError)
 	}
-	if res.Steps < 10*res.Schedules {
+	minSteps := int64(10)
+	if strings.HasSuffix(res.Scenario, "/sync-level-unbounded") {
+		minSteps = 3 // only lock acquisitions and thread starts/ends are points in that pass
+	}
+	if res.Steps < minSteps*res.Schedules {
 		panic("E2 engine error in " + res.Scenario + ": no scheduling points were hit (instrumentation missing?)")
 	}
 	r.EvalN("sched/"+res.Scenario, res.Schedules)
